@@ -123,11 +123,15 @@ Either(why) == [v |-> "either", ft |-> "none", why |-> why]
 
 TouchstoneParams == {"S", "Z", "Y", "H", "G"}
 
+(* with a single port there is only one impedance: "unequal" is "equal" *)
+Z0Class(c) == IF c.cols = 1 /\ c.z0c = "unequal" THEN "equal" ELSE c.z0c
+
 SaveVerdict(c) ==
     LET ports == c.cols
         fm    == EffFmts(c)
         r     == ResolveFiletype(c.ext, c.set)
         idx   == 1..Len(fm)
+        z0c   == Z0Class(c)
     IN
     IF c.type = "undef" THEN Either("untyped data")       \* manual silent
     ELSE IF c.nf = 0 THEN Either("no frequencies")       \* manual silent
@@ -137,14 +141,14 @@ SaveVerdict(c) ==
             THEN Refuse("touchstone: s, z, y, h or g only")
         ELSE IF fm[1].f \notin Coords
             THEN Refuse("touchstone: ri, ma or dB only")
-        ELSE IF c.z0c = "perfreq"
+        ELSE IF z0c = "perfreq"
             THEN Refuse("touchstone: no frequency-dependent impedances")
-        ELSE IF c.z0c = "complex"
+        ELSE IF z0c = "complex"
             THEN Refuse("touchstone: references real and positive")
         ELSE IF ~Convertible(c.type, ports, fm[1].p)
             THEN Refuse("not convertible")
         ELSE IF r.ft = "ts2" THEN Accept("ts2")
-        ELSE IF ports > 4 \/ c.z0c = "unequal"
+        ELSE IF ports > 4 \/ z0c = "unequal"
             THEN IF r.promo THEN Accept("ts2")
                  ELSE Refuse("touchstone 1: at most 4 ports, one impedance")
         ELSE Accept("ts1")
@@ -172,7 +176,7 @@ SaveOutput(c) ==
         nf      |-> c.nf,
         params  |-> fm,
         fz0     |-> c.z0c = "perfreq",
-        mixedz0 |-> c.z0c = "unequal",
+        mixedz0 |-> Z0Class(c) = "unequal",
         realz0  |-> c.z0c \in {"equal", "unequal"},
         order   |-> v.ft = "ts2" /\ c.cols = 2,      \* [Two-Port Order]
         fields  |-> 1 + (IF c.z0c = "perfreq" THEN 2 * c.cols ELSE 0)
